@@ -13,7 +13,7 @@ mod cli_gen;
 #[path = "../shared/cli_run.rs"]
 mod cli_run;
 
-use cli_gen::{hex_decode, input_family, CliInput, ElfKind, ExtVariant, InputSpec};
+use cli_gen::{hex_decode, CliInput, ElfKind, ExtVariant, InputSpec};
 use cli_run::{all_names, split_stderr, Cli};
 use mcx::{par_for, Ctx};
 use serde::{Deserialize, Serialize};
@@ -94,7 +94,7 @@ fn run_case(ctx: &Ctx, cli: &Cli, case: &Case) {
 /// in the iteration order of a `HashSet`, which the hook makes visible. Same seed => same
 /// order; the seeds of the range must produce more than one order.
 fn verify_seed_control(ctx: &Ctx, cli: &Cli, seeds: &[u64]) {
-    let spec = InputSpec { arch: "x64", templates: vec!["straight"], ext: ExtVariant::Used, elf: ElfKind::DynMin };
+    let spec = InputSpec { arch: "x64", templates: vec!["straight"], ext: ExtVariant::Used, elf: ElfKind::DynMin, all_selections: false };
     let input = spec.build();
     let slot = cli.slot();
     let (elf, pcode) = cli.write_input(&slot, &input.pcode_json, &hex_decode(&input.elf_hex));
@@ -139,34 +139,38 @@ fn main() {
     }
     let ctx = &ctx;
     let cpu0 = cli_run::children_cpu_ms();
-    // the C21 input family of the quick tier in both tiers (the seed dimension grows instead)
-    let mut specs = input_family(false);
-    if ctx.thorough() {
-        // plus the remaining ELF kinds for single-function inputs
-        specs.extend(input_family(true).into_iter().filter(|s| s.templates.len() == 1 && (s.elf == ElfKind::ExecMin || s.arch == "arm")));
-    }
+    let mut family = cli_gen::seed_family(ctx.thorough());
     if let Some(f) = cli_run::dev_filter() {
-        specs.retain(|s| s.label().contains(&f));
-        ctx.cap_hit(&format!("VERIF_CLI_ONLY={f}: only {} inputs explored", specs.len()));
+        family.retain(|(s, _, _)| s.label().contains(&f));
+        ctx.cap_hit(&format!("VERIF_CLI_ONLY={f}: only {} inputs explored", family.len()));
     }
     let sels: [Vec<String>; 2] = [vec![], vec!["--partial".to_string(), all_names()]];
-    // thorough: multi-function inputs get a quarter of the seed range (their number is what is large)
-    let seeds_for = |spec: &InputSpec| -> Vec<u64> {
-        if ctx.thorough() && spec.templates.len() > 1 {
-            seeds[..(k / 4) as usize].to_vec()
-        } else {
-            seeds.clone()
-        }
-    };
-    par_for(specs.len() as u64 * 2, 1, |i| {
-        let spec = &specs[(i / 2) as usize];
-        let case = Case { input: spec.build(), args: sels[(i % 2) as usize].clone(), seeds: seeds_for(spec) };
+    // flatten to (input, selection) cases
+    let cases: Vec<(usize, usize)> = family.iter().enumerate().flat_map(|(i, (_, ss, _))| ss.iter().map(move |s| (i, *s))).collect();
+    par_for(cases.len() as u64, 1, |i| {
+        let (fi, si) = cases[i as usize];
+        let (spec, _, div) = &family[fi];
+        let case = Case { input: spec.build(), args: sels[si].clone(), seeds: seeds[..(k / div) as usize].to_vec() };
         ctx.add_states(1);
         ctx.sample(|| json!({"input": case.input.label, "args": case.args, "seeds": case.seeds.len()}));
         run_case(ctx, &cli, &case);
     });
+    let specs_len = family.len();
     ctx.stat("children_cpu_s", (cli_run::children_cpu_ms() - cpu0) / 1000);
-    ctx.set("bounds", json!({"inputs": specs.len(), "selections": "default, --partial <all 19>", "hash_seeds": format!("{}..{} ({} seeds, the first one run twice; thorough: two-function inputs use the first {} seeds)", offset, offset + k, k, k / 4), "input_family": "C21 quick family (all single templates x 4 extern tables x ELF kinds x 2 register tables, all ordered template pairs); thorough adds ET_EXEC and the ARM-style ELF kinds"}));
+    ctx.set(
+        "bounds",
+        json!({
+            "inputs": specs_len,
+            "cases": cases.len(),
+            "selections": "default, --partial <all 19>",
+            "hash_seeds": format!("{}..{} ({} seeds, the first one run twice)", offset, offset + k, k),
+            "input_family": if ctx.thorough() {
+                "every single-template input of the thorough C21 family (24 templates x 4 extern tables x 8 register-table/ELF combinations), both selections, all seeds; every ordered template pair (x86_64, Full table, ET_DYN+sections), both selections, first quarter of the seeds"
+            } else {
+                "every single template x {x86_64 Full/ET_DYN+sections, x86_64 Kernel/kernel module, ARM-style Full/ET_DYN}, both selections, all seeds; every ordered template pair (x86_64, Full table, ET_DYN+sections), all-checks selection, first half of the seeds"
+            },
+        }),
+    );
     ctx.assume("LIMIT: the hash-seed space (2^128 key pairs) and the induced iteration-order space cannot be enumerated; only the owned seeds of the stated range are explored, so a divergence that needs a rare order can be missed (level: exploration, exhaustive=false)");
     ctx.assume("seed control verified at start-up in the CLI process itself: the execution order of `--partial <all>` (a HashSet iteration, visible through the hook) is a function of VERIF_HASH_SEED and differs between seeds");
     ctx.assume("thread scheduling of the log collector is decided exhaustively by C25; here it is only sampled by running one seed twice");
